@@ -1,18 +1,19 @@
 """C19 — number encodings are lossless."""
 CONFIG = {
-    "manifest": {'level_text': 'Coq theorems (closed under the global context) state, for ALL values and byte strings, the round trip of OASIS unsigned / signed / packed integers and 2-, 3-, g-deltas, acceptance of every alternative legal encoding up to 10 bytes, and overflow flagging, on a Gallina model that mirrors the C++ codecs statement by statement. The model is tied to /repo on every run by an obligation over literals regenerated from the source and by running the extracted model and the real codecs on the same inputs; a verified executable form of the specification relation serves as the property oracle.', 'level_note': 'Trusted: Coq kernel, extraction (ExtrOcamlBasic only), regex translator, C++ harness (in-memory OasisStream; static codecs reached by #include of src/oasis.cpp). Point lists, GDSII reals, OASIS reals and byte swaps are covered by the c19_plist / c19_real units when present in the check configuration; otherwise only by the differential run.', 'technique': 'Coq proof over Gallina model of the codecs + generated-constant obligations + extracted-model differential run'},
+    "manifest": {'level_text': "Coq theorems for ALL values: OASIS unsigned / signed / packed integers and 2-, 3-, g-deltas round trip, every alternative legal integer encoding up to 10 bytes is accepted, values beyond 64 bits are flagged; point lists of any length round trip under both closed settings and every one of the six list types is accepted (writer's type selection state machine and the implicit closing vertex included); GDSII 8-byte reals: decode(encode x) = x exactly for every normal double of the format's range (encoder modelled exactly: exponent = ceil(frexp exponent / 4)), normalisation idempotent, the 56-to-53-bit rounding of the decoder is the identity on encoder outputs; 16/32/64-bit swaps are byte reversals and involutive (by byte decomposition, not sampling); OASIS reals over Flocq binary64: every finite double except -0.0 round trips bit for bit whichever of the integer / reciprocal / IEEE forms the writer picks. All models mirror the C++ statement by statement and run, extracted, against the real codecs; literals are regenerated from the source.", 'level_note': "Theorems over Z/N/Q are closed under the global context; the OASIS-real theorems depend on the standard-library axioms that Flocq's definitions pull in (ClassicalDedekindReals.sig_forall_dec, sig_not_dec, FunctionalExtensionality.functional_extensionality_dep, Classical_Prop.classic). Acceptance of ratio and single-precision reals (types 4-6) is decided by the differential run only. -0.0 is written as integer 0 (sign lost; numerically equal) - recorded, not flagged. Padded integers of 11+ bytes are flagged as overflow by design (stated bound). Two defects found by this check were repaired by fix: commits.", 'technique': 'Coq proof over Gallina model of the codecs + generated-constant obligations + extracted-model differential run'},
     "prop_file": "Properties_C19",
-    "extract_file": "Extract_C19",
-    "extracted": ["c19"],
-    "driver": "c19",
-    "harness": "c19",
-    "include_cpp": ["oasis.cpp"],
+    "units": [
+        {"harness": "c19", "driver": "c19", "extracted": ["c19"], "extract_file": "Extract_C19", "include_cpp": ["oasis.cpp"]},
+        {"harness": "c19_plist", "driver": "c19_plist", "extracted": ["c19_plist"], "extract_file": "Extract_C19Plist", "thorough_seeds": 2},
+        {"harness": "c19_real", "driver": "c19_real", "extracted": ["c19_real"], "extract_file": "Extract_C19Real", "thorough_seeds": 1},
+    ],
     "rule": ("cases: deterministic sweep of every 7-bit group boundary (+-1) for unsigned and packed integers, then a "
              "seeded mix of encode/decode round trips (uint, packed int with 1..4 flag bits, signed, 2/3/g-delta) and of "
              "spec-level random encodings (non-minimal, over-long, truncated, overflowing) decoded by implementation and model; "
              "a case is non-trivial when its value needs more than one byte or its byte string has more than one byte; "
              "distinct = distinct (kind, payload)"),
-    "trusted": ["harness reaches static codecs by #include of /repo/src/oasis.cpp (current working tree)"],
+    "trusted": ["harness reaches static codecs by #include of /repo/src/oasis.cpp (current working tree)",
+                "standard-library axioms used by Flocq (only under the OASIS-real theorems): ClassicalDedekindReals.sig_forall_dec, sig_not_dec, FunctionalExtensionality.functional_extensionality_dep, Classical_Prop.classic"],
     "assumptions": ["in-memory OasisStream behaves like a file for sequential reads (short read = bytes exhausted)"],
 }
 
